@@ -9,7 +9,7 @@
    Proofs/ConfigFacts (approved_build, counter_entry, stack_entry). *)
 From Coq Require Import List ZArith NArith Bool.
 From Tele Require Import Lib.Bytes Lib.Str Lib.Assoc Lib.Calendar Model.Config Model.ApprovalSpec Model.Report
-  Model.Approval Proofs.ConfigFacts Proofs.AggregateFacts Proofs.ReportFacts Proofs.ApprovalFacts Proofs.ApprovalOracle.
+  Model.Approval Proofs.ConfigFacts Proofs.AggregateFacts Proofs.ReportFacts Proofs.ApprovalFacts Proofs.ApprovalOracle Proofs.ReportPrograms.
 Import ListNotations.
 From Coq Require Import String. Open Scope string_scope. Open Scope N_scope. Open Scope list_scope.
 
@@ -134,12 +134,31 @@ Proof. exact server_check_model. Qed.
 Print Assumptions C11_server_oracle_model.
 
 (* The executable viewer oracle reports nothing on the model's summary,
-   ActiveMeta, Active flags and X = 0 upload, for every configuration and file. *)
-Theorem C11_viewer_oracle_model : forall u f,
+   ActiveMeta, Active flags and the X = 0 upload of the WHOLE week the file
+   belongs to, for every configuration, week and file of it. *)
+Theorem C11_viewer_oracle_model : forall u files f, In f files ->
   viewer_check u f (viewer_summary (new_config u) f) (viewer_active_meta (new_config u) (f_ident f))
-               (viewer_active (new_config u) f) (Some (filter_upload (new_config u) 0 (aggregate [f]))) = [].
+               (viewer_active (new_config u) f) (Some (filter_upload (new_config u) 0 (aggregate files))) = [].
 Proof. exact viewer_check_model. Qed.
 Print Assumptions C11_viewer_oracle_model.
+
+(* ---- Approval is per program: what the uploader keeps of one program of a
+   weekly report does not depend on the other programs of the report or on
+   their order; the verdict on an item involves only its own program's name. *)
+Theorem C11_upload_program_independent : forall c x before p after,
+  filter_upload c x (before ++ p :: after) =
+  filter_upload c x before ++ filter_upload c x [p] ++ filter_upload c x after.
+Proof. exact upload_program_independent. Qed.
+Print Assumptions C11_upload_program_independent.
+
+Theorem C11_upload_item_verdict : forall c x ps i cs0 ss0 k v,
+  In (i, (cs0, ss0)) ps -> build_ok c i = true ->
+  (In (k, v) cs0 -> keep_counter c x (id_program i) (k, v) = true ->
+   exists cs ss, In (i, (cs, ss)) (filter_upload c x ps) /\ In (k, v) cs) /\
+  (In (k, v) ss0 -> keep_stack c x (id_program i) (k, v) = true ->
+   exists cs ss, In (i, (cs, ss)) (filter_upload c x ps) /\ In (k, v) ss).
+Proof. exact upload_item_verdict. Qed.
+Print Assumptions C11_upload_item_verdict.
 
 (* ---- Non-vacuity *)
 Definition ex_cfg : upload_cfg :=
@@ -165,4 +184,22 @@ Example ex_server_rejects_local :
   | Some (local, _) => server_validate (new_config ex_cfg) true local
   | _ => VOk
   end = VUnknownCounter.
+Proof. vm_compute. reflexivity. Qed.
+
+(* a week with two approved programs that both recorded the stack "stk",
+   approved for cmd/go only: kept for cmd/go, dropped for cmd/compile, in both file orders *)
+Definition ex_cfg2 : upload_cfg :=
+  mkUC [s2b "linux"] [s2b "amd64"] [s2b "go1.22.1"] 0
+       [mkPC (s2b "cmd/go") [s2b "go1.22.1"] [] [mkCC (s2b "stk") bits_one];
+        mkPC (s2b "cmd/compile") [s2b "go1.22.1"] [mkCC (s2b "c") bits_one] []].
+Definition ex_f (prog : string) : cfile :=
+  mkFile (mkId (s2b prog) (s2b "go1.22.1") (s2b "go1.22.1") (s2b "linux") (s2b "amd64"))
+         [(s2b "stk" ++ [10] ++ s2b "f", 2); (s2b "c", 1)].
+Example ex_two_programs_order1 :
+  map (fun p => (List.length (fst (snd p)), List.length (snd (snd p))))
+      (filter_upload (new_config ex_cfg2) bits_half (aggregate [ex_f "cmd/go"; ex_f "cmd/compile"])) = [(0%nat, 1%nat); (1%nat, 0%nat)].
+Proof. vm_compute. reflexivity. Qed.
+Example ex_two_programs_order2 :
+  map (fun p => (List.length (fst (snd p)), List.length (snd (snd p))))
+      (filter_upload (new_config ex_cfg2) bits_half (aggregate [ex_f "cmd/compile"; ex_f "cmd/go"])) = [(1%nat, 0%nat); (0%nat, 1%nat)].
 Proof. vm_compute. reflexivity. Qed.
